@@ -226,9 +226,27 @@ pub fn c09_bv(g: &mut Gen) {
         for a in boundary_values(len as u64) {
             lines.push(format!("bv A it bits : N{} l n b", a));
             lines.push(format!("bv A it bits : n B{} l n b", a));
+            // … and after the cursor on the SAME side has already moved (position + n must not be formed unclamped)
+            lines.push(format!("bv A it bits : n n N{} l n b", a));
+            lines.push(format!("bv A it bits : b b B{} l n b", a));
+            lines.push(format!("bv A it bits : n b N{} B{} l", a, a));
+        }
+        for a in boundary_values(ones as u64) {
+            lines.push(format!("bv A it one : n n N{} l n", a));
+            lines.push(format!("bv A it one : b b B{} l b", a));
+            lines.push(format!("bv A it sel 1 : n N{} l n", a));
+            lines.push(format!("bv A it zero : n n N{} l n", a));
+            lines.push(format!("bv A it zero : b b B{} l b", a));
         }
         g.group(lines);
     }
+    // item iterators of the integer vector and (through the same AccessIter) the wavelet matrix, both ends, after advancing
+    let mut lines = vec!["iv V from_vec u16 5 0 65535 7 7 300 1 2".to_string(), "wm W from u16 5 0 7 7 300 1 2 5".to_string()];
+    for a in boundary_values(8) {
+        lines.push(format!("iv V it n n N{} l n b", a)); lines.push(format!("iv V it b b B{} l n b", a)); lines.push(format!("iv V into_it n n N{} l n", a));
+        lines.push(format!("wm W it items : n n N{} l n b", a)); lines.push(format!("wm W it items : b b B{} l n b", a)); lines.push(format!("wm W it into : n n N{} l n", a));
+    }
+    g.group(lines);
 }
 
 pub fn c09(g: &mut Gen) {
